@@ -399,8 +399,11 @@ func (w *hworld) tagsFor(o hop) []string {
 		}
 	case "pros":
 		for _, tm := range w.ov.VerifC06PendingTreeMarshals()[w.rosters[o.Ros].ID] {
-			if w.ov.VerifTreeState(tm.TreeID) != 1 {
-				tags = append(tags, "roster-replay")
+			switch w.ov.VerifTreeState(tm.TreeID) {
+			case 0:
+				tags = append(tags, "roster-for-absent")
+			case 2:
+				tags = append(tags, "roster-for-present")
 			}
 			if len(tm.Children) == 0 {
 				tags = append(tags, "empty-desc")
@@ -639,6 +642,9 @@ func scenarios() []scen {
 		{"deprecated-known-roster", []hop{h("lcreate", 1), h("lmsg", 0, 1), h("ptm", 0), h("ldone", 1)}},
 		// deprecated form: the roster message comes again after the tree was released
 		{"deprecated-stale", []hop{h("lmsg", 0, 1), h("ptm", 0), h("pros", 0), h("ldone", 0), h("expire", 0), h("pros", 0)}},
+		// deprecated form: the tree arrives by a full response while its bare description waits for the roster;
+		// the roster comes after the tree was released
+		{"deprecated-late-roster", []hop{h("lmsg", 0, -1), h("ptm", 0), h("presp", 0, 0), h("expire", 0), h("pros", 0)}},
 		// deprecated form: a second roster message with other members re-makes the tree
 		{"deprecated-remake", []hop{h("lmsg", 0, 1), h("ptm", 0), h("pros", 0), h("pros", 2)}},
 		// deprecated form with malformed descriptions
@@ -731,7 +737,7 @@ func corpusHist() []interface{} {
 	var ins []interface{}
 	for _, sc := range scenarios() {
 		switch sc.name {
-		case "overwrite-local", "overwrite-learnt", "deprecated-stale", "deprecated-remake", "malformed-empty", "deprecated-empty":
+		case "overwrite-local", "overwrite-learnt", "deprecated-stale", "deprecated-late-roster", "deprecated-remake", "malformed-empty", "deprecated-empty":
 			ins = append(ins, input{Kind: "hist", Name: sc.name, Ops: sc.ops})
 		}
 	}
